@@ -539,6 +539,22 @@ def r5(run: Run, src, g):
                     l = rx.lang(sub)
                     if hi == MAXREPEAT and q in l.chars and greedy:
                         bad.append(f'greedy repeat of a class that contains {q}')
+
+                # a lazy repeat that admits the quote stops at the first quote only when nothing else of the body has to be
+                # matched after it; in front of further required elements it crosses quotes to reach them
+                def lazy_not_last(seq, is_tail):
+                    seq = list(seq)
+                    for k_, (op_, av_) in enumerate(seq):
+                        last_ = is_tail and all(o2 in (sre_c.AT,) for o2, _ in seq[k_ + 1:])
+                        if op_ is sre_c.MIN_REPEAT:
+                            if av_[1] == MAXREPEAT and q in rx.lang(av_[2]).chars and not last_:
+                                bad.append(f'lazy repeat of a class that contains {q} in front of further required parts of the body')
+                        elif op_ is sre_c.SUBPATTERN:
+                            lazy_not_last(av_[3], last_)
+                        elif op_ is sre_c.BRANCH:
+                            for alt_ in av_[1]:
+                                lazy_not_last(alt_, last_)
+                lazy_not_last(body, True)
                 construct = f'{t.name}/quoted-alternative'
                 run.check(not bad, 'C05.R5', construct, 'runs-over-quote',
                           f'the body of the {q}-delimited token can match {q} greedily ({"; ".join(bad)}): one token can span '
@@ -553,6 +569,28 @@ def _top_alternatives(tree):
     if len(items) == 1 and items[0][0] is sre_c.BRANCH:
         return items[0][1][1]
     return [tree]
+
+
+def r9_tails_admit_blanks(run: Run, src, g):
+    """blanks between two tokens belong to the tail a token hands back (the lexer strips them before the next token): the tail
+    pattern of every terminal must accept a tail that starts with blanks, otherwise `SUM (A1)` is lexed differently from
+    `SUM(A1)`.  The pattern constants are matched with the standard re module; nothing of the repository runs."""
+    import re
+    probes = [' (A1)', '\t(A1;2)', '  +1', ' ', ' "x"', ' ;1)', ' )', ' A1']
+    n = 0
+    for name, t in sorted(g.terminals.items()):
+        try:
+            rx = re.compile(t.tail)
+        except re.error as e:
+            raise AnalysisError('C05.R9', f'{name}: the tail pattern {t.tail!r} does not compile ({e})')
+        n += 1
+        rejected = [q for q in probes if rx.fullmatch(q) is None]
+        run.check(not rejected, 'C05.R9', f'{name}/tail', 'tail-rejects-blanks',
+                  f'the tail pattern {t.tail!r} of {name} rejects the tails {rejected[:4]}: the token is then not recognised when '
+                  f'blanks follow it, so whitespace between two tokens changes the result (or the formula is rejected)',
+                  fact=f'tail {t.tail!r} accepts blanks first', loc=loc_of(t.ci.module.path, t.ci.node))
+    if n < 20:
+        raise AnalysisError('C05.R9', f'only {n} terminals analysed')
 
 
 def r6(run: Run, src, g, em):
@@ -620,6 +658,9 @@ def run(run: Run):
     from . import c09
     run.rule('C05.R8', 'a workbook set again is read, lexed and parsed again (setter raises the dirty flag unconditionally; shared with C09.R1)')
     borrow(run, 'C05.R8', c09.r1, src)
+    run.rule('C05.R9', 'the tail pattern of every terminal accepts a tail that starts with blanks')
+    run.guard('C05.R9', r9_tails_admit_blanks, run, src, g)
+    run.floor('C05.R9', 20)
     run.floor('C05.R8', 8)
     run.floor('C05.R7', 3)
     run.floor('C05.R1', 4)
